@@ -206,3 +206,50 @@ func Tiny() int { return 1 }
 //
 //go:noinline
 func (t *T) Getter() int { return t.K }
+
+// SkuName is called from the String()/Error() methods below: rendering such a value calls a function the
+// program may have mocked as well.
+//
+//go:noinline
+func SkuName(id int) string { return fmt.Sprintf("real-sku-%d", pad(id)) }
+
+//go:noinline
+func pad(a int) int { return a }
+
+// Order is an argument type whose String() goes through SkuName.
+type Order struct{ Sku int }
+
+func (o Order) String() string { return "order(" + SkuName(o.Sku) + ")" }
+
+// Submit takes such an argument.
+//
+//go:noinline
+func Submit(o Order) int { return -pad(o.Sku) }
+
+// SkuErr is a result type whose Error() goes through SkuName.
+type SkuErr struct{ Code int }
+
+func (e *SkuErr) Error() string { return "failed: " + SkuName(e.Code) }
+
+// Validate returns an error.
+//
+//go:noinline
+func Validate(id int) error {
+	if pad(id) < 0 {
+		return &SkuErr{id}
+	}
+	return nil
+}
+
+// VarHook is an optional hook: a variable of func type.
+var VarHook = func(name string) string { return "real:" + name }
+
+// Emit is the code that uses the hook.
+//
+//go:noinline
+func Emit(name string) string {
+	if VarHook != nil {
+		return VarHook(name)
+	}
+	return "no-hook"
+}
